@@ -258,7 +258,7 @@ func validatePositive(v interface{}, _ string) error {
 		return nil
 	}
 
-	val := reflect.ValueOf(v)
+	val := chaseValue(reflect.ValueOf(v))
 	switch val.Kind() {
 	case reflect.Int, reflect.Int8, reflect.Int16, reflect.Int32, reflect.Int64:
 		if val.Int() >= 0 {
@@ -292,7 +292,7 @@ func validateMin(v interface{}, param string) error {
 		return nil
 	}
 
-	val := reflect.ValueOf(v)
+	val := chaseValue(reflect.ValueOf(v))
 	switch val.Kind() {
 	case reflect.Int, reflect.Int8, reflect.Int16, reflect.Int32, reflect.Int64:
 		min, err := strconv.ParseInt(param, 0, 64)
@@ -342,7 +342,7 @@ func validateMax(v interface{}, param string) error {
 		return nil
 	}
 
-	val := reflect.ValueOf(v)
+	val := chaseValue(reflect.ValueOf(v))
 	switch val.Kind() {
 	case reflect.Int, reflect.Int8, reflect.Int16, reflect.Int32, reflect.Int64:
 		max, err := strconv.ParseInt(param, 0, 64)
